@@ -759,13 +759,11 @@ def object_streams(ctx: Ctx, book: Book, cover: Cover, pool: dict, by_value: dic
                 book.add('roundtrip-law', cls, 'bytes:' + f2[0].law, shape_of(a, f2[0].law, f2[0].detail, b), b, f2[0].detail, {'stream': 'attr-bytes', 'data': hx(b), 'asn4': asn4})
 
     def do_route(r: Any, src: str, origin: dict) -> None:
-        before = len(book.best)
         do_nlri(r.nlri, src, origin)
         nh_afi = getattr(r.nexthop, 'afi', None)
         same_afi = nh_afi is None or int(r.nlri.afi) not in (1, 2) or int(nh_afi) in (0, int(r.nlri.afi))
         if R.sendable(r.nlri) and not R.has_path(r.nlri) and same_afi and not R.nlri_laws(r.nlri)[0]:
             routes_by_family.setdefault((str(r.nlri.afi), str(r.nlri.safi)), []).append(r)
-        del before
         for _code, a in r.attributes.items():
             if R.is_wire_attribute(a):
                 do_attr(a, src, origin)
@@ -1137,11 +1135,6 @@ def coverage_report(ctx: Ctx, cover: Cover) -> None:
     missing = [k for k in sorted(want_nlri) if not seen_nlri.get(k)] + [k for k in sorted(want_attr) if not seen_attr.get(k)]
     if missing:
         ctx.notes.append('registered classes for which no object was obtained from any source: ' + ', '.join(missing))
-    fams = {(a, s) for a, s, _ in reg['families']}
-    got = set()
-    for k in cover.nlri:
-        pass
-    del fams, got
 
 
 def replay(path: str) -> int:
